@@ -483,18 +483,20 @@ fn bif_matches(parameters: &NamedParameters) -> Value {
 }
 
 fn bif_max(parameters: &NamedParameters) -> Value {
-  if let Some((Value::List(list), _)) = get_param(parameters, &NAME_LIST) {
-    core::max(list.as_vec())
-  } else {
-    parameter_not_found!(&NAME_LIST)
+  match get_param(parameters, &NAME_LIST) {
+    Some((Value::List(list), _)) => core::max(list.as_vec()),
+    // a single value is taken for a list of one item, like in the positional invocation
+    Some((value, _)) => core::max(&[value.clone()]),
+    None => parameter_not_found!(&NAME_LIST),
   }
 }
 
 fn bif_mean(parameters: &NamedParameters) -> Value {
-  if let Some((Value::List(list), _)) = get_param(parameters, &NAME_LIST) {
-    core::mean(list.as_vec())
-  } else {
-    parameter_not_found!(&NAME_LIST)
+  match get_param(parameters, &NAME_LIST) {
+    Some((Value::List(list), _)) => core::mean(list.as_vec()),
+    // a single value is taken for a list of one item, like in the positional invocation
+    Some((value, _)) => core::mean(&[value.clone()]),
+    None => parameter_not_found!(&NAME_LIST),
   }
 }
 
@@ -503,10 +505,11 @@ fn bif_meets(_parameters: &NamedParameters) -> Value {
 }
 
 fn bif_median(parameters: &NamedParameters) -> Value {
-  if let Some((Value::List(list), _)) = get_param(parameters, &NAME_LIST) {
-    core::median(list.as_vec())
-  } else {
-    parameter_not_found!(&NAME_LIST)
+  match get_param(parameters, &NAME_LIST) {
+    Some((Value::List(list), _)) => core::median(list.as_vec()),
+    // a single value is taken for a list of one item, like in the positional invocation
+    Some((value, _)) => core::median(&[value.clone()]),
+    None => parameter_not_found!(&NAME_LIST),
   }
 }
 
@@ -515,10 +518,11 @@ fn bif_met_by(_parameters: &NamedParameters) -> Value {
 }
 
 fn bif_min(parameters: &NamedParameters) -> Value {
-  if let Some((Value::List(list), _)) = get_param(parameters, &NAME_LIST) {
-    core::min(list.as_vec())
-  } else {
-    parameter_not_found!(&NAME_LIST)
+  match get_param(parameters, &NAME_LIST) {
+    Some((Value::List(list), _)) => core::min(list.as_vec()),
+    // a single value is taken for a list of one item, like in the positional invocation
+    Some((value, _)) => core::min(&[value.clone()]),
+    None => parameter_not_found!(&NAME_LIST),
   }
 }
 
@@ -539,10 +543,11 @@ fn bif_month_of_year(_parameters: &NamedParameters) -> Value {
 }
 
 fn bif_mode(parameters: &NamedParameters) -> Value {
-  if let Some((Value::List(list), _)) = get_param(parameters, &NAME_LIST) {
-    core::mode(list.as_vec())
-  } else {
-    parameter_not_found!(&NAME_LIST)
+  match get_param(parameters, &NAME_LIST) {
+    Some((Value::List(list), _)) => core::mode(list.as_vec()),
+    // a single value is taken for a list of one item, like in the positional invocation
+    Some((value, _)) => core::mode(&[value.clone()]),
+    None => parameter_not_found!(&NAME_LIST),
   }
 }
 
@@ -766,10 +771,11 @@ fn bif_substring_before(parameters: &NamedParameters) -> Value {
 }
 
 fn bif_sum(parameters: &NamedParameters) -> Value {
-  if let Some((Value::List(list), _)) = get_param(parameters, &NAME_LIST) {
-    core::sum(list.as_vec())
-  } else {
-    parameter_not_found!(&NAME_LIST)
+  match get_param(parameters, &NAME_LIST) {
+    Some((Value::List(list), _)) => core::sum(list.as_vec()),
+    // a single value is taken for a list of one item, like in the positional invocation
+    Some((value, _)) => core::sum(&[value.clone()]),
+    None => parameter_not_found!(&NAME_LIST),
   }
 }
 
